@@ -1158,9 +1158,14 @@ fn overlap_slots_for_patch(
     patch: &WorldlineTickPatchV1,
     basis_overlap_slots: &[SlotId],
 ) -> Vec<SlotId> {
+    let cascade_cleared: Vec<SlotId> = patch.cascade_cleared_slots().collect();
     basis_overlap_slots
         .iter()
-        .filter(|slot| patch.in_slots.contains(slot) || patch.out_slots.contains(slot))
+        .filter(|slot| {
+            patch.in_slots.contains(slot)
+                || patch.out_slots.contains(slot)
+                || cascade_cleared.contains(slot)
+        })
         .copied()
         .collect()
 }
